@@ -125,10 +125,11 @@ func (e *Engine) eval(c *evalCtx, x Expr) Val {
 			if len(ss) != 1 {
 				panic(fmt.Errorf("quantified variable of non-scalar type %s", v.Type))
 			}
-			b := Bound(v.Name, ss[0])
+			b := BoundCanon(v.Name, c.qdepth, ss[0])
 			bnd = append(bnd, b)
 			nc = nc.with(v.Name, Val{T, []*Term{b}})
 		}
+		nc.qdepth = c.qdepth + 1
 		body := e.evalBool(nc, n.Body)
 		if n.Forall {
 			return boolVal(Forall(bnd, body))
@@ -219,6 +220,12 @@ func (e *Engine) evalIdent(c *evalCtx, name string) Val {
 	case "nil":
 		return Val{types.Typ[types.UntypedNil], []*Term{BVConst(0, 64)}}
 	}
+	if c.fr != nil && !c.fr.isTop {
+		// inlined frame: its own variables shadow the names of the function under verification
+		if v, ok := e.lookupVar(c.st, c.fr, name, c.at); ok {
+			return v
+		}
+	}
 	if v, ok := c.env[name]; ok {
 		return v
 	}
@@ -228,6 +235,16 @@ func (e *Engine) evalIdent(c *evalCtx, name string) Val {
 	if c.fr != nil {
 		if v, ok := e.lookupVar(c.st, c.fr, name, c.at); ok {
 			return v
+		}
+		// variables of the calling frames (loops of inlined callees annotated by the function under verification)
+		for i := len(c.st.stack) - 1; i >= 0; i-- {
+			f := c.st.stack[i]
+			if f == c.fr {
+				continue
+			}
+			if v, ok := e.lookupVar(c.st, f, name, nil); ok {
+				return v
+			}
 		}
 	}
 	// package-level constant / var
@@ -347,6 +364,12 @@ func (e *Engine) lookupVar(st *State, fr *Frame, name string, at *ssa.BasicBlock
 			return st.loadAt(ptrInfo(v), deref(v.T)), true
 		}
 		return v, true
+	}
+	// address-taken locals and named results live in an Alloc carrying the variable's name
+	for v, r := range fr.regs {
+		if a, ok := v.(*ssa.Alloc); ok && a.Comment == name {
+			return st.loadAt(ptrInfo(r), deref(r.T)), true
+		}
 	}
 	// any value already computed whose debug name matches (outside dominance, e.g. defined in loop pre-header chain)
 	for _, b := range fn.Blocks {
